@@ -141,6 +141,35 @@ def gen_sources(only=None):
     return gen_src.generate_all(REPO, os.path.join(COQ, "theories", "Gen"), only=only)
 
 
+def gen_components_of(prop_id):
+    """Names of the Gen/Src_<comp>.v files that Props/Properties_<id>.v (transitively) imports:
+    only their translators are part of this property's tie."""
+    root = os.path.join(COQ, "theories")
+    seen, todo, comps = set(), [os.path.join("Props", "Properties_%s" % prop_id), os.path.join("Extract", "Extract_%s" % prop_id)], set()
+    while todo:
+        m = todo.pop()
+        if m in seen:
+            continue
+        seen.add(m)
+        path = os.path.join(root, m + ".v")
+        if not os.path.exists(path):
+            continue
+        txt = strip_coq_comments(open(path).read())
+        for st in re.findall(r"(?:From\s+PP\s+)?Require\s+(?:Import\s+|Export\s+)?([^;]*?)\.(?=\s)", txt, flags=re.S):
+            for tok in st.split():
+                tok = tok.strip()
+                if tok.startswith("PP."):
+                    tok = tok[3:]
+                if not re.match(r"^[A-Za-z_][\w.]*$", tok):
+                    continue
+                rel = tok.replace(".", os.sep)
+                if os.path.exists(os.path.join(root, rel + ".v")):
+                    todo.append(rel)
+                    if rel.startswith("Gen" + os.sep + "Src_"):
+                        comps.add(rel[len("Gen" + os.sep + "Src_"):])
+    return comps
+
+
 def coq_make(targets, timeout=1500):
     """make -k the given .vo targets (paths relative to coq/).  Returns (ok, log)."""
     with Lock("coq"):
@@ -388,7 +417,9 @@ class Check:
     def proofs(self, extra_trusted=()):
         """Regenerate Gen/, compile the property file, record obligations."""
         errs = gen_sources()
-        gen_broken = {k: v for k, v in errs.items() if v}
+        mine = gen_components_of(self.prop)
+        gen_broken = {k: v for k, v in errs.items() if v and k in mine}
+        self.cov["translators_in_tie"] = sorted(mine)
         res = check_properties_file(self.prop)
         self.cov["obligations"] = len(res["theorems"])
         self.cov["discharged"] = len([t for t in res["theorems"] if t in res["accepted"]])
